@@ -276,6 +276,10 @@ def batch_files(max_n, lo, hi, seed):
                     attrs.append([fi, 'r%d' % fi, ['ranges', rngs], str(rngs[-1][0]), '0'])
                 if rnd.random() < 0.3:
                     attrs.append([fi, 'lvl%d' % fi, ['enum', ['low', 'mid', 'high'][:rnd.randint(1, 3)]], 'low', 'high'])
+                if rnd.random() < 0.4:       # every kind of value text the format carries (one value_spec token each, probed on the installed lexer)
+                    pool = value_texts()
+                    els = rnd.sample(pool, rnd.randint(1, min(4, len(pool))))
+                    attrs.append([fi, 'v%d' % fi, ['enum', els], rnd.choice(els + pool[:2]), rnd.choice(pool)])
             trees = []
             if n >= 3:
                 pool = [t for t in R.logical_trees(names[:3], 1) if isinstance(t, tuple) and 'XOR' not in t]
@@ -291,6 +295,28 @@ def batch_files(max_n, lo, hi, seed):
                     return res
             res['sample'] = {'shape': R.shape_str(shape), 'cards': cards, 'attrs': attrs, 'ctcs': trees}
     return res
+
+
+_VALUE_TEXTS = []
+
+
+def value_texts():
+    """texts that the installed AFM lexer delivers as exactly one token of a class admitted by `value_spec`
+    (WORD | LOWERCASE | INT | DOUBLE | STRING): candidates of every class, filtered through the real lexer."""
+    if _VALUE_TEXTS:
+        return _VALUE_TEXTS
+    from antlr4 import InputStream
+    from afmparser.AFMLexer import AFMLexer
+    from afmparser.AFMParser import AFMParser
+    ok = {getattr(AFMParser, k) for k in ('WORD', 'LOWERCASE', 'INT', 'DOUBLE', 'STRING') if hasattr(AFMParser, k)}
+    cand = ['low', 'x9', 'High', 'A1b', '0', '7', '42', '100', '1.5', '2.0', '10.25', '0.5', '"two words"', '"x"', '"1.5"', '"a,b"', '"7"', '"High"']
+    for t in cand:
+        lx = AFMLexer(InputStream(t))
+        lx.removeErrorListeners()
+        toks = lx.getAllTokens()
+        if len(toks) == 1 and toks[0].type in ok and toks[0].text == t:
+            _VALUE_TEXTS.append(t)
+    return _VALUE_TEXTS
 
 
 def batch_names(lo, hi):
